@@ -345,13 +345,26 @@ package ugo
 //@ ensures r == specDisabled(rootOf(st), name)
 //@ property C13
 
+// Root table: a cached builtin symbol exists only for names that are not
+// disabled; resolving returns a builtin only for such names; disabling names
+// re-establishes the invariant (the cache is purged).
 //@ func (*SymbolTable).Resolve
 //@ params st name
 //@ results symbol ok
-//@ requires st != nil && st.store != nil && rootOfDef() && symtabInv()
-//@ requires forall t *SymbolTable :: t != nil ==> t.store != nil
-//@ ensures[nodisabled] ok && symbol != nil && symbol.Scope == ScopeBuiltin ==> !specDisabled(rootOf(st), name)
+//@ requires st != nil && st.parent == nil && st.store != nil && rootOfDef() && symtabInvAt(st)
+//@ ensures[nodisabled] ok && symbol.Scope == ScopeBuiltin ==> !specDisabled(st, name)
 //@ ensures[nonnil]     ok ==> symbol != nil
-//@ ensures[inv]        symtabInv()
-//@ modifies *
+//@ ensures[inv]        symtabInvAt(st)
+//@ ensures[disabled]   verifrt.SameRef(st.disabledBuiltins, old(st.disabledBuiltins))
+//@ modifies st.store[*]
+//@ property C13
+
+//@ func (*SymbolTable).DisableBuiltin
+//@ params st names
+//@ requires st != nil && st.parent == nil && st.store != nil && rootOfDef() && symtabInvAt(st) && len(names) < 1<<30
+//@ ensures[inv]      symtabInvAt(st)
+//@ ensures[disabled] forall k int :: 0 <= k && k < len(names) ==> specDisabled(st, names[k])
+//@ loop 0 invariant root == st && st.disabledBuiltins != nil && st.store != nil && symtabInvAt(st)
+//@ loop 0 invariant forall k int :: 0 <= k && k < verifIdx ==> specDisabled(st, names[k])
+//@ modifies st.disabledBuiltins, st.disabledBuiltins[*], st.store[*]
 //@ property C13
